@@ -35,7 +35,7 @@ ASSUME = ["identifier values 0 and 2^32-1 are valid and are used (each special k
 SYMS = ["HS", "REQ", "REQ_missing", "REQ_unknown_cmd", "REQ_unknown_app", "REQ_foreign_realm", "REQ_no_realm",
         "REQ_T", "REQ_raise", "ANS_stray", "ANS_no_origin", "ANS_no_result", "CEA_no_origin", "CEA_stray",
         "DWA_stray", "DWA_no_origin", "DPA_stray", "DPA_no_result", "DWR", "DPR", "NODE_REQ", "NODE_REQ_ANS",
-        "ADV2", "ADV_IDLE", "REQ_hold", "SUBMIT", "RECONNECT", "REQ2_seg", "DWR_REQ_seg", "REQ_DWR_seg", "REQ_exp_result", "REQ_dup_avp", "REQ_dup_avp_T", "REQ_non_utf8_origin", "DWR_non_utf8_origin", "DPR_non_utf8_origin", "REQ_answer_then_raise"]
+        "ADV2", "ADV_IDLE", "REQ_hold", "SUBMIT", "RECONNECT", "REQ2_seg", "DWR_REQ_seg", "REQ_DWR_seg", "REQ_exp_result", "REQ_dup_avp", "REQ_dup_avp_T", "REQ_non_utf8_origin", "DWR_non_utf8_origin", "DPR_non_utf8_origin", "REQ_answer_then_raise", "REQ_hold_then_raise"]
 DEFECTIVE = {"ANS_stray", "ANS_no_origin", "ANS_no_result", "CEA_no_origin", "CEA_stray", "DWA_stray",
              "DWA_no_origin", "DPA_stray", "DPA_no_result", "REQ_missing", "REQ_unknown_cmd", "REQ_unknown_app",
              "REQ_foreign_realm", "REQ_no_realm", "REQ_raise", "REQ_T", "REQ_dup_avp", "REQ_dup_avp_T", "REQ_non_utf8_origin", "DWR_non_utf8_origin", "DPR_non_utf8_origin"}
@@ -81,6 +81,7 @@ def evaluate(case) -> Result:
 
         exp_ids = set()
         after_ids = set()
+        holdraise_ids = set()
 
         def beh(rec_):
             if rec_["hbh"] in hold_ids:
@@ -89,6 +90,8 @@ def evaluate(case) -> Result:
                 return "answer-experimental"
             if rec_["hbh"] in after_ids and case.get("app_kind") != "threading":
                 return "answer-then-raise"
+            if rec_["hbh"] in holdraise_ids and case.get("app_kind") != "threading":
+                return "hold-then-raise"
             return None
         w.behaviour_fn = beh
         last_req = {}
@@ -136,6 +139,14 @@ def evaluate(case) -> Result:
                 # the handler submits its answer and raises afterwards: the request has been answered
                 after_ids.add(base["hbh"])
                 w.feed_msg(c, dict(base, k="REQ"))
+            elif s == "REQ_hold_then_raise":
+                # the handler hands the request to a worker and raises: the node answers 5012; the worker's
+                # answer (a later SUBMIT) is a second answer for the same request
+                holdraise_ids.add(base["hbh"])
+                n_seen = len(w.requests_seen)
+                w.feed_msg(c, dict(base, k="REQ"))
+                w.run()
+                held += [r for r in w.requests_seen[n_seen:] if r["hbh"] == base["hbh"] and r.get("behaviour") == "hold-then-raise"]
             elif s == "REQ_exp_result":
                 # the application answers with Experimental-Result instead of Result-Code (RFC 6733 7.6)
                 exp_ids.add(base["hbh"])
